@@ -84,6 +84,10 @@ def run(ck):
         ck.saw(f)
         classify(ck, prog, f, "main" if "main" in cname else "aux")
     units(ck, prog)
+    from .c01 import cols_rule
+    cols_rule(ck, prog)   # the number of committed columns holds every coefficient of the composition polynomial
+    from . import derived
+    derived.run(ck, prog, None)
     folding(ck, prog)
     c02.partition_rules(ck, prog)
     c02.dropped(ck, prog)
